@@ -187,7 +187,11 @@ func runR83(c *core.Ctx) {
 	}
 	// (c) binary responder headers
 	for _, hw := range []string{"writeSuccessResponseHeader", "writeErrorResponseHeader"} {
-		fn := c.P.Func("protocol/binprot", hw)
+		role := roleSuccessHeaderWriter
+		if hw == "writeErrorResponseHeader" {
+			role = roleErrorHeaderWriter
+		}
+		fn := findFunc(c, "protocol/binprot", hw, role)
 		if fn == nil {
 			c.Undecided("R8.3", "binprot."+hw, "-", "header writer not found")
 			continue
@@ -286,7 +290,7 @@ func writeSize(cc *ssa.CallCommon) (ssax.Lin, bool) {
 }
 
 func runR84(c *core.Ctx) {
-	hw := c.P.Func("protocol/binprot", "writeSuccessResponseHeader")
+	hw := findFunc(c, "protocol/binprot", "writeSuccessResponseHeader", roleSuccessHeaderWriter)
 	if hw == nil {
 		c.Undecided("R8.4", "binprot.writeSuccessResponseHeader", "-", "header writer not found")
 		return
